@@ -221,11 +221,17 @@ def body(ev, cls, template, gender, prec):
 
 
 def worker(job):
-    ev, cls, template, gender, prec, budget = job
+    ev, cls, template, gender, prec, budget = job[:6]
+    prime_gender = job[6] if len(job) > 6 else None
     res = JobResult()
     R = hc.Runner(res, plain(), 'athlib.check_performance_for_discipline', scripts(ev, gender, prec, cls), max_paths=100000, deadline=time.time() + budget,
                   r_axioms=('mono', 'err', 'int'))
     label = '%s %r gender=%s prec=%s' % (ev, ''.join(d if len(d) == 1 else ('d' if d == D else '?') for d in template), gender, prec)
+    if prime_gender is not None:
+        # history clause: the same event validated for another gender first (a text of the same template, digits of its own)
+        label += ' after the same event for gender=%s' % prime_gender
+        R.prime_body = body(ev, cls, template, prime_gender, prec)
+        R.prime_script = ('import athlib\ntry:\n    athlib.check_performance_for_discipline(%r, {text}, gender=%r, prec=%r)\nexcept Exception:\n    pass\n' % (ev, prime_gender, prec))
     try:
         R.explore(body(ev, cls, template, gender, prec), label)
     except E.Budget as e:
@@ -250,6 +256,11 @@ def run(chk, only=None):
             if t.count(':') + t.count(';') == 0 or not quick:
                 for g in ('m', 'f', 'all', 'x'):
                     jobs.append((ev, 'field', t, g, None, budget))
+    plain_marks = [t for t in tmpls if t.count(':') + t.count(';') == 0 and any(d == D for d in t)]
+    for ev in FIELD:
+        for t in plain_marks[:3] if quick else plain_marks:
+            for g, pg in (('f', 'm'), ('m', 'f'), ('all', 'f')):
+                jobs.append((ev, 'field', t, g, None, budget, pg))
     for ev in MULTI:
         for t in tmpls[::2]:
             jobs.append((ev, 'multi', t, 'all', None, budget))
